@@ -1,2 +1,5 @@
+SPECIFICATION Spec
 CONSTANT MaxCore = 2
 CONSTANT PairSeps = 3
+INVARIANT Emit
+CHECK_DEADLOCK FALSE
